@@ -323,3 +323,18 @@ Proof. vm_compute. repeat split. Qed.
 (* Any is the one field type that relies on the enclosing object's import *)
 Lemma any_needs_context : field_cover (mkProp false (Plain (TAny false)) false false) = false.
 Proof. vm_compute. reflexivity. Qed.
+
+(* statements used verbatim by props/C07.v *)
+Definition full_language_statement : Prop :=
+  forall p, in_language p = true -> o_verdict (compile_iso p) = VOk.
+Lemma full_language_refuted : ~ full_language_statement.
+Proof.
+  intros H. pose proof (H float_rules_witness) as Hf.
+  destruct language_refuted as [Hl [Hv _]]. rewrite (Hf Hl) in Hv. discriminate.
+Qed.
+Lemma language_accepted_partial : forall p,
+  in_language p = true -> uses_float_rules p = false -> uses_informal_key_listrules p = false ->
+  o_verdict (compile_iso p) = VOk.
+Proof.
+  intros p H1 H2 H3. apply iso_language_accepted. unfold accepted_language. rewrite H1, H2, H3. reflexivity.
+Qed.
